@@ -9,6 +9,7 @@ use crate::rng::{combine, Chooser, Rng};
 use crate::trisim::{guarded, Delivery, Policy, RunCfg, RunResult, Sim};
 use ciphercore_base::data_values::Value;
 use ciphercore_base::evaluators::Evaluator;
+use ciphercore_base::graphs::Operation;
 use serde::{Deserialize, Serialize};
 
 #[derive(Clone, Debug, Serialize, Deserialize)]
@@ -327,6 +328,55 @@ pub fn minimise(mut rp: TriReplay, budget: usize) -> TriReplay {
             break;
         }
     }
+    // (3b) drop the steps of the main graph that the output does not depend on (inputs are kept)
+    if left > 0 {
+        if let Some(c2) = drop_dead_steps(&rp.case) {
+            let mut cand = rp.clone();
+            cand.case = c2;
+            if let Some(v) = try_candidate(&cand, &mut left) {
+                cand.violation = v;
+                rp = cand;
+                rp.notes.push("dead steps dropped".into());
+            }
+        }
+    }
+    // (3c) replace the result of a step by a fresh input holding the value the step had (secret-shared first, so that
+    // it stays private; public as the second choice), latest steps first; then drop what became dead
+    {
+        let mut i = rp.case.prog.main().output;
+        while i > 0 && left > 1 {
+            i -= 1;
+            if i >= rp.case.prog.main().steps.len() || matches!(rp.case.prog.main().steps[i].op, Operation::Input(_)) {
+                continue;
+            }
+            for owner in [crate::exec::Owner::Shared, crate::exec::Owner::Public] {
+                if let Some(c2) = step_to_input(&rp.case, i, owner) {
+                    let c3 = drop_dead_steps(&c2).unwrap_or(c2);
+                    let mut cand = rp.clone();
+                    cand.case = c3;
+                    if let Some(v) = try_candidate(&cand, &mut left) {
+                        cand.violation = v;
+                        rp = cand;
+                        rp.notes.push(format!("step {} replaced by a fresh input", i));
+                        i = i.min(rp.case.prog.main().output);
+                        break;
+                    }
+                }
+            }
+        }
+        // inputs nothing depends on any more
+        if left > 0 {
+            if let Some(c2) = drop_unused_inputs(&rp.case) {
+                let mut cand = rp.clone();
+                cand.case = c2;
+                if let Some(v) = try_candidate(&cand, &mut left) {
+                    cand.violation = v;
+                    rp = cand;
+                    rp.notes.push("unused inputs dropped".into());
+                }
+            }
+        }
+    }
     // (4) inputs -> zeros / ones
     for k in 0..rp.case.inputs.len() {
         let t = rp.case.prog.input_types()[k].clone();
@@ -367,6 +417,106 @@ pub fn minimise(mut rp: TriReplay, budget: usize) -> TriReplay {
     rp.program_summary = rp.case.prog.summary();
     rp.notes.push(format!("minimiser used {} of {} re-runs", budget - left, budget));
     rp
+}
+
+/// Steps of the main graph reachable from the output, plus every Input step; None if nothing can be dropped.
+fn drop_dead_steps(case: &Case) -> Option<Case> {
+    drop_steps(case, true)
+}
+
+fn drop_unused_inputs(case: &Case) -> Option<Case> {
+    drop_steps(case, false)
+}
+
+fn drop_steps(case: &Case, keep_inputs: bool) -> Option<Case> {
+    let m = case.prog.main();
+    let n = m.steps.len();
+    if !m.node_names.is_empty() || !m.node_annotations.is_empty() {
+        return None;
+    }
+    let mut live = vec![false; n];
+    let mut stack = vec![m.output];
+    while let Some(i) = stack.pop() {
+        if i >= n || live[i] {
+            continue;
+        }
+        live[i] = true;
+        stack.extend(m.steps[i].deps.iter().cloned());
+    }
+    let mut kept_inputs = 0;
+    for (i, st) in m.steps.iter().enumerate() {
+        if matches!(st.op, Operation::Input(_)) {
+            if keep_inputs {
+                live[i] = true;
+            }
+            if live[i] {
+                kept_inputs += 1;
+            }
+        }
+    }
+    if live.iter().all(|x| *x) || kept_inputs == 0 {
+        return None;
+    }
+    let mut newidx = vec![usize::MAX; n];
+    let mut steps = vec![];
+    let mut owners = vec![];
+    let mut inputs = vec![];
+    let mut k = 0;
+    for (i, st) in m.steps.iter().enumerate() {
+        let is_input = matches!(st.op, Operation::Input(_));
+        if live[i] {
+            newidx[i] = steps.len();
+            let mut st2 = st.clone();
+            st2.deps = st.deps.iter().map(|d| newidx[*d]).collect();
+            steps.push(st2);
+            if is_input {
+                owners.push(case.owners[k]);
+                inputs.push(case.inputs[k].clone());
+            }
+        }
+        if is_input {
+            k += 1;
+        }
+    }
+    let mut c2 = case.clone();
+    {
+        let mm = c2.prog.main_mut();
+        mm.steps = steps;
+        mm.output = newidx[m.output];
+    }
+    c2.owners = owners;
+    c2.inputs = inputs;
+    Some(c2)
+}
+
+/// The case in which step `i` of the main graph is an Input of the same type, provisioned with the value the step has
+/// in the plaintext evaluation of the source program.
+fn step_to_input(case: &Case, i: usize, owner: crate::exec::Owner) -> Option<Case> {
+    use ciphercore_base::custom_ops::run_instantiation_pass;
+    let mut p2 = case.prog.clone();
+    {
+        let mm = p2.main_mut();
+        mm.output = i;
+        mm.steps.truncate(i + 1);
+    }
+    // the prefix must still contain every input (inputs declared later are not reachable by evaluate_context)
+    let n_in_prefix = p2.input_types().len();
+    let built = p2.build().ok()?;
+    let t = built.nodes.last()?.get(i)?.get_type().ok()?;
+    let ins: Vec<Value> = case.inputs[..n_in_prefix].to_vec();
+    let ctx = built.context.clone();
+    let val = crate::trisim::guarded(move || {
+        let inst = run_instantiation_pass(ctx)?.get_context();
+        let mut ev = crate::exec::det_evaluator(1);
+        ev.evaluate_context(inst, ins)
+    })
+    .ok()?
+    .ok()?;
+    let mut c2 = case.clone();
+    c2.prog.main_mut().steps[i] = crate::dsl::Step { op: Operation::Input(t), deps: vec![], gdeps: vec![] };
+    c2.owners.insert(n_in_prefix, owner);
+    c2.inputs.insert(n_in_prefix, val);
+    Some(c2)
 }
 
 pub struct TriCaseOut {
